@@ -114,7 +114,18 @@ def pipeline(f, op):
 def cont_edges(code, call):
     """Continue edges of `?` applied to the (awaited) result of `call`"""
     res, qs = roles.awaited_result_switches(code, call)
-    return [q["cont"] for q in qs if q["cont"][1] is not None], [q["brk"] for q in qs if q["brk"][1] is not None]
+    cont = [q["cont"] for q in qs if q["cont"][1] is not None]
+    brk = [q["brk"] for q in qs if q["brk"][1] is not None]
+    # an explicit `match result { Ok(..) => .., Err(e) => return Err(e) }` reads the same as `?`
+    for si in res:
+        if si["enum"] in ("core::result::Result", "core::option::Option"):
+            okl = "Ok" if si["enum"].endswith("Result") else "Some"
+            erl = "Err" if si["enum"].endswith("Result") else "None"
+            if si["edges"].get(okl) is not None:
+                cont.append((si["bb"], si["edges"][okl]))
+            if si["edges"].get(erl) is not None:
+                brk.append((si["bb"], si["edges"][erl]))
+    return cont, brk
 
 
 def first(lst, what, op):
